@@ -80,6 +80,25 @@ class Opaque:
         return hash(("Opaque", self.text))
 
 
+class StructObj:
+    """struct.Struct(fmt): pack / unpack / unpack_from / size of a constant format"""
+
+    def __init__(self, fmt):
+        self.fmt = fmt
+        self.s = struct.Struct(fmt)
+        self.size = self.s.size
+        self.format = fmt
+
+    def __repr__(self):
+        return "<Struct %s>" % self.fmt
+
+    def __eq__(self, o):
+        return isinstance(o, StructObj) and o.fmt == self.fmt
+
+    def __hash__(self):
+        return hash(("Struct", self.fmt))
+
+
 class Arr(list):
     """array.array('b' | 'B', ...): a list of its items that remembers the type code (buffer protocol: tobytes(),
     bytes(a), translate tables)"""
@@ -823,6 +842,11 @@ class Ev:
                 return {"bytes": bytes, "bytearray": bytearray}[fname.split(".")[0]].fromhex(args[0])
             except ValueError:
                 raise Raised("ValueError", n)
+        if fname in ("struct.Struct", "Struct") and len(args) == 1 and isinstance(args[0], (str, bytes)) and not kw:
+            try:
+                return StructObj(args[0])
+            except struct.error:
+                raise Raised("struct.error", n)
         # struct single-field models
         if fname == "struct.pack" and not kw:
             try:
@@ -970,6 +994,18 @@ class Ev:
                 return recv.to_bytes(*args, **kw)
             except OverflowError:
                 raise Raised("OverflowError", n)
+        if isinstance(recv, StructObj) and not kw:
+            try:
+                if name == "pack":
+                    return recv.s.pack(*args)
+                if name == "unpack" and len(args) == 1:
+                    return recv.s.unpack(bytes(args[0].tobytes() if isinstance(args[0], Arr) else args[0]))
+                if name == "unpack_from" and len(args) in (1, 2):
+                    return recv.s.unpack_from(bytes(args[0].tobytes() if isinstance(args[0], Arr) else args[0]), *(args[1:]))
+            except struct.error:
+                raise Raised("struct.error", n)
+            except (TypeError, ValueError) as e_:
+                raise Raised(type(e_).__name__, n)
         if isinstance(recv, Arr) and name == "tobytes" and not args and not kw:
             return recv.tobytes()
         if isinstance(recv, (bytes, bytearray)) and name == "tobytes" and not args and not kw:
